@@ -131,7 +131,7 @@ func C05(ctx *core.Ctx) {
 	ctx.Explanation = "Decides, for every byte sequence, the absence of bounds / make / explicit panics on all paths of the receive cones inside package frugal and that message-oriented receive loops cannot be left because of message content: " +
 		"every index, slice, make-length and encoding/binary access in the cone of the receiving entry points (found by type: NATS message handlers, the HTTP handler, goroutine receive loops, the read loop, accept, and the decoding halves of client and server) is proved in range by a linear-inequality prover from the dominating branch conditions (machine arithmetic respected: an addition counts only if its no-overflow is itself proved); " +
 		"no source-level panic/Fatal/Exit and no unchecked type assertion in the cone; every exit of a message loop is dominated by a lifecycle signal; connection-oriented readers exit through close(cause). " +
-		"Not decided: panics inside thrift/nats/stomp/generated code and user handlers, nil dereferences, memory exhaustion by huge-but-legal sizes."
+		"A result that some implementation returns as (nil, nil error) is used by callers only under a non-nil test (R8). Not decided: panics inside thrift/nats/stomp/generated code and user handlers, nil dereferences other than R8's, memory exhaustion by huge-but-legal sizes."
 	c05Config(ctx, "", "")
 }
 
@@ -147,6 +147,8 @@ func c05Config(ctx *core.Ctx, goos, goarch string) {
 	ctx.Rule("C05.R5", "loop-exit discipline: every exit of a message-oriented receive loop is dominated by a lifecycle signal (quit/stop case or channel closed), never by message content", 3)
 	ctx.Rule("C05.R6", "connection-oriented receivers: every exit of the frame reader loop consumed the close token or went through close(cause)", 4)
 	ctx.Rule("C05.R7", "no mutex is leaked by a function of the receive cone", 3)
+
+	c05NilResults(ctx, r)
 
 	// ---- R1 -----------------------------------------------------------------------
 	entries := map[*ssa.Function]string{}
